@@ -16,6 +16,7 @@ derive it by RFC 6979; any `0 < k < n` is covered).  Size hypotheses `n, p ≤ 2
 -/
 import FuelVerif.Lemmas.EcdsaWrappers
 import FuelVerif.Model.CryptoOps
+import FuelVerif.Lemmas.ToyCurve
 namespace FuelVerif.Ecdsa
 open FuelVerif
 
@@ -131,6 +132,41 @@ theorem r1_recover_sign (L : CurveLaws E) (d k : Nat) (msg sig : Bytes)
     r1Recover E sig msg = .ok (publicKey E d) :=
   L.r1Recover_signed hk0 hk hd0 hd hn (L.r1Sign_ok d k msg sig hk0 hk hd0 hd hx h)
 
+/-! ### non-vacuity on the lawful toy curve (order 31 over F₄₃): key 7, nonce 2, message 5 -/
+section Examples
+open FuelVerif.Ecdsa.Toy
+
+def exMsg17 : Bytes := natBE 32 5
+/-- the signature `secpSign toy 7 2 exMsg17` produces (checked below) -/
+def exSig17 : Bytes := compact 7 4
+
+example : CurveLaws toy := toy_laws
+example : secpSign toy 7 2 exMsg17 = .ok exSig17 := by decide +kernel
+-- the hypotheses of `recover_sign` / `verify_sign` hold and their conclusions are about real values
+example : secpRecover toy exSig17 exMsg17 = .ok (publicKey toy 7) :=
+  recover_sign toy_laws 7 2 _ _ (by decide) (by decide) (by decide) (by decide) (by decide) (by decide +kernel)
+example : secpVerify toy exSig17 (publicKey toy 7) exMsg17 = .ok () :=
+  verify_sign toy_laws 7 2 _ _ (by decide) (by decide) (by decide) (by decide) (by decide) (by decide)
+    (by decide +kernel)
+example : publicKey toy 7 = compact 25 18 := by decide +kernel
+-- another digest (6 ≠ 5 mod 31) recovers a different key; the congruent message 5 + 31 recovers the same key
+example : secpRecover toy exSig17 (natBE 32 6) ≠ .ok (publicKey toy 7) :=
+  recover_other_message_partial toy_laws 7 2 exMsg17 (natBE 32 6) _ (by decide) (by decide) (by decide) (by decide)
+    (by decide) (by decide) (by decide +kernel) (by decide +kernel)
+example : natBE 32 36 ≠ exMsg17 ∧ secpRecover toy exSig17 (natBE 32 36) = .ok (publicKey toy 7) := by
+  decide +kernel
+example : ¬ RecoverOtherMessageStatement toy := by
+  intro h
+  exact h 7 2 exMsg17 (natBE 32 36) exSig17 (by decide) (by decide) (by decide) (by decide) (by decide +kernel)
+    (by decide +kernel) (by decide +kernel)
+-- secp256r1 wrappers on the same toy group
+example : r1Sign toy 7 2 exMsg17 = .ok exSig17 ∧ r1Recover toy exSig17 exMsg17 = .ok (publicKey toy 7) := by
+  decide +kernel
+-- the flipped recovery bit recovers another key
+example : secpRecover toy (exSig17.set 32 0x80) exMsg17 ≠ .ok (publicKey toy 7) := by decide +kernel
+
+end Examples
+
 end FuelVerif.Ecdsa
 
 namespace FuelVerif.CryptoOps
@@ -200,5 +236,24 @@ theorem eck1_recovers_signer {E : Curve} [AddCommGroup E.Pt] [Module (ZMod E.n) 
   have := (ecRecover_reports_library (secpRecover E) m read a b c o h).1 (publicKey E d)
   rw [hb, hc] at this
   exact this (recover_sign L d k msg sig hk0 hk hd0 hd hn hs)
+
+/-! ### non-vacuity for the handlers: a 1 KiB stack frame at 10 000, 1 KiB of heap -/
+section Examples
+def exMem : MemView := ⟨11024, 67107840, 11024, 10000, 67107840, 67108864⟩
+
+-- operands in the owned stack / heap: no panic; an output below `$ssp`: MemoryOwnership; beyond memory: MemoryOverflow
+example : ecRecover (fun _ _ => .ok (zeros 64)) exMem (fun _ _ => []) 10000 10100 67107840 = .ok ⟨some (zeros 64), 0⟩ := by
+  decide +kernel
+example : ecRecover (fun _ _ => .error .InvalidSignature) exMem (fun _ _ => []) 10000 10100 10200
+    = .ok ⟨some (zeros 64), 1⟩ := by decide +kernel
+example : ecRecover (fun _ _ => .ok []) exMem (fun _ _ => []) 9999 10100 10200 = .error .MemoryOwnership := by
+  decide +kernel
+example : ecRecover (fun _ _ => .ok []) exMem (fun _ _ => []) 10000 67108801 10200 = .error .MemoryOverflow := by
+  decide +kernel
+example : ecRecover (fun _ _ => .ok []) exMem (fun _ _ => []) 10000 10100 11000 = .error .UninitalizedMemoryAccess := by
+  decide +kernel
+example : ed19 (fun _ _ _ => true) exMem (fun _ _ => []) 10000 10100 10200 0 = .ok ⟨none, 0⟩ := by decide +kernel
+example : ed19 (fun _ _ _ => false) exMem (fun _ _ => []) 10000 10100 10200 100 = .ok ⟨none, 1⟩ := by decide +kernel
+end Examples
 
 end FuelVerif.CryptoOps
